@@ -15,12 +15,20 @@ from ..local import ALL_OFF
 
 PID = 'C16'
 
-CODEC = {'none': 'utf-8', 'utf-8': 'utf-8', 'latin-1': 'latin-1', 'cp1252': 'cp1252', 'iso-8859-15': 'iso-8859-15', 'ascii': 'ascii'}
+CODEC = {'none': 'utf-8', 'utf-8': 'utf-8', 'latin-1': 'latin-1', 'cp1252': 'cp1252', 'iso-8859-15': 'iso-8859-15', 'ascii': 'ascii',
+         'utf-8-unix': 'utf-8', 'latin-1-dos': 'latin-1', 'ISO_8859_15': 'iso-8859-15', 'Latin_1': 'latin-1'}
 COOKIE_LINE = {'utf-8': '# -*- coding: utf-8 -*-', 'latin-1': '# -*- coding: latin-1 -*-', 'cp1252': '# vim: set fileencoding=cp1252 :',
-               'iso-8859-15': '#coding=iso-8859-15', 'ascii': '# coding: ascii'}
+               'iso-8859-15': '#coding=iso-8859-15', 'ascii': '# coding: ascii',
+               'utf-8-unix': '# -*- coding: utf-8-unix -*-', 'latin-1-dos': '# -*- coding: latin-1-dos -*-', 'ISO_8859_15': '# coding: ISO_8859_15',
+               'Latin_1': '# vim: fileencoding=Latin_1'}
+# the non-ASCII #! line uses characters whose bytes mean something else in the sibling codecs (0xA4 0xBC: latin-1 / iso-8859-15; 0x80 0x8C: cp1252)
+NONASCII_SHEBANG = {'utf-8': u'#!/opt/pyth\u00f6n/\u20ac\u0152/bin/python', 'latin-1': u'#!/opt/pyth\u00f6n/\u00a4\u00bc/bin/python',
+                    'cp1252': u'#!/opt/pyth\u00f6n/\u20ac\u0152/bin/python', 'iso-8859-15': u'#!/opt/pyth\u00f6n/\u20ac\u0152/bin/python',
+                    'ascii': u'#!/opt/pyth\u00f6n/bin/python'}
 SHEBANG = {'plain': '#!/usr/bin/env python', 'with-args': '#!/usr/bin/python -O -u  ', 'non-ascii': u'#!/opt/pyth\u00f6n/bin/python',
            'hash-only': '# !/usr/bin/python', 'space-before': ' #!/usr/bin/python',
-           'with-formfeed': '#!/usr/bin/env -S python\x0c-O', 'with-x85': u'#!/usr/bin/python \x85 x', 'with-linesep': u'#!/usr/bin/python \u2028x \x1c y'}
+           'with-formfeed': '#!/usr/bin/env -S python\x0c-O', 'with-x85': u'#!/usr/bin/python \x85 x', 'with-linesep': u'#!/usr/bin/python \u2028x \x1c y',
+           'with-cookie': '#!/usr/bin/python # -*- coding: latin-1 -*-'}
 
 # body programs (LF, unicode); each must be encodable in the codecs it is used with
 BODIES = [
@@ -58,7 +66,7 @@ def build(cfg, body):
     lines = []
     sb = None
     if cfg['shebang'] in SHEBANG:
-        sb = SHEBANG[cfg['shebang']]
+        sb = SHEBANG[cfg['shebang']] if cfg['shebang'] != 'non-ascii' else NONASCII_SHEBANG[CODEC[cfg['cookie']]]
         lines.append(sb)
     if cfg['shebang'] == 'second-line-only':
         lines.append('x0 = 0')
@@ -71,7 +79,7 @@ def build(cfg, body):
             lines.append(COOKIE_LINE[cfg['cookie']])
     text = nl.join(lines + body.split('\n')) if lines else nl.join(body.split('\n'))
     try:
-        b = text.encode(CODEC[cfg['cookie']])
+        b = text.encode('latin-1' if cfg['shebang'] == 'with-cookie' else CODEC[cfg['cookie']])
     except UnicodeEncodeError:
         return text, None, sb
     if cfg['bom']:
@@ -123,7 +131,7 @@ def run(args, rep):
         plan = []
         for ci, cfg in enumerate(cfgs):
             for bi, (body, kind) in enumerate(bodies):
-                if not encodable(kind, cfg['cookie']):
+                if not encodable(kind, 'latin-1' if cfg['shebang'] == 'with-cookie' else cfg['cookie']):
                     skipped_unencodable += 1
                     continue
                 if v == '2.7' and (cfg['form'] == 'text' or kind == 'utf8' or 'f\'' in body or u'\u00e9 =' in body):
@@ -209,7 +217,8 @@ def run(args, rep):
         d14 = (cfg['form'] == 'bytes' and cfg['shebang'] == 'non-ascii' and cfg['cookie'] in ('latin-1', 'cp1252', 'iso-8859-15')
                and not cfg['bom'] and cfg['preserve'])
         d14_27 = (v == '2.7' and cfg['shebang'] == 'non-ascii' and cfg['preserve'] and not cfg['bom'])
-        key = ('D14:' if (d14 or d14_27) and 'Unicode' in vd[0] else '') + shape + ' python=' + v
+        d23 = cfg['shebang'] == 'with-cookie' and cfg['preserve'] and vd[0] == 'c16:program-or-constants-changed'
+        key = ('D14:' if (d14 or d14_27) and 'Unicode' in vd[0] else 'D23:' if d23 else '') + shape + ' python=' + v
         rep.violation(key=key, clause=vd[0], what='%s body#%d %s %s' % (shape + ' python=' + v, bi, a.get('msg', ''), a.get('strict_diff', '')),
                       replay={'kind': 'minify', 'version': v, 'src_b64': base64.b64encode(b).decode() if b is not None else '',
                               'opts': dict(opts, preserve_shebang=bool(cfg['preserve'])), 'strict': True, 'cfg': cfg})
